@@ -1437,6 +1437,14 @@ class Interp:
         denv = Env(m)
         bound = self.bind_args(fnode.args, args, kwargs, denv, node, c.qualname.split(".")[-1])
         self.contract_attempts.append((c.qualname, bound))
+        if getattr(c, "opaque_on_tables", False) and any(
+                isinstance(v, VObj) and v.term is not None and getattr(v, "cols", None) is None and v.tag in ("DataFrame", "Series")
+                for v in bound.values()):
+            # term level: a statistic of an OPAQUE table / column (e.g. one group of a groupby) is the uninterpreted application
+            # <function>(arguments); its contract is not unfolded (its preconditions on the opaque argument are not checkable here)
+            res = self.externs.opaque_repo_call(self, c, bound, node)
+            self.contract_calls.append((c.qualname, bound, res))
+            return res
         res = c.apply(self, bound, node)
         self.contract_calls.append((c.qualname, bound, res))
         return res
